@@ -61,6 +61,7 @@ type Env struct {
 	Linker acme.Linker
 	Client *FakeClient
 	Router http.Handler
+	Mux    *chi.Mux
 	Provs  map[string]*provisioner.ACME
 	Root   *x509.Certificate
 }
@@ -196,6 +197,7 @@ func New(provs []ProvSpec, wrap func(acme.DB) acme.DB) (*Env, error) {
 	base = acme.NewContext(base, e.DB, e.Client, e.Linker, nil)
 	mux := chi.NewRouter()
 	mux.Route("/acme", func(r chi.Router) { acmeAPI.Route(r) })
+	e.Mux = mux
 	e.Router = http.HandlerFunc(func(w http.ResponseWriter, r *http.Request) {
 		mux.ServeHTTP(w, r.WithContext(mergeCtx(r.Context(), base)))
 	})
